@@ -29,6 +29,7 @@ def run(chk, repo, tier):
     chk.clause('C11-d', 'default polar origin = mask centroid for either parity (shift = centroid - floor(n/2))', 2)
     chk.clause('C11-e', 'rho is scaled by the largest radius over the mask', 1)
     chk.clause('C11-f', 'radial term is the textbook factorial term, summed over k = 0..(n-m)/2', 2)
+    chk.clause('C11-h', 'polar coordinates: isotropic radius of the mesh, angle convention, caller shift honoured', 3)
     chk.clause('C11-g', 'Noll index map: radial order from the triangular-number formula, position within the row, row of '
                         '|m| values by parity of n, sign of m from the parity of j (even j cosine, odd j sine)', 6)
     noll_rules(chk, repo, 'C11-g')
@@ -36,6 +37,8 @@ def run(chk, repo, tier):
                         'R(1) = 1, orthonormality, boundedness',
                         'sign convention of sine modes with caller-supplied theta']
 
+    from .extra_rules import zernike_polar_rules
+    zernike_polar_rules(chk, repo, 'C11-h')
     f, paths, _ = analyse(repo, 'zernike.zernike', config={'rho': S('rho'), 'theta': S('theta')})
     rets = returns(paths)
     if len(rets) < 5:
